@@ -31,6 +31,7 @@ import (
 	"github.com/snower/slock/protocol"
 	"github.com/snower/slock/simrt/snet"
 	"github.com/snower/slock/simrt/ssched"
+	"github.com/snower/slock/simrt/ssync"
 )
 
 type RSMember struct {
@@ -133,6 +134,8 @@ type rsMemberRun struct {
 	lastP uint64
 	lastC uint64
 	wasLd bool
+	seenP uint64
+	seenC uint64
 }
 
 func runReplset(w *World) {
@@ -151,7 +154,7 @@ func runReplset(w *World) {
 		cfg := w.mkcfg(id, "", "rs")
 		cfg.DataDir, cfg.Port = m.dir, m.port
 		m.node = w.boot(id, cfg)
-		m.lastP, m.lastC, m.wasLd = 0, 0, false
+		m.lastP, m.lastC, m.wasLd, m.seenP, m.seenC = 0, 0, false, 0, 0
 	}
 	live := func(m *rsMemberRun) bool {
 		return m.node != nil && m.node.up && m.node.sl != nil && m.node.sl.arbiterManager != nil && !ssched.NodeDead(m.node.id)
@@ -240,6 +243,30 @@ func runReplset(w *World) {
 	}
 	snet.N.Tap = func(ev snet.TapEvent) { check() }
 	defer func() { snet.N.Tap = nil }()
+	// acceptor rule, read at every mutex release on a member's node: when the commit path (a commit
+	// request from a candidate, or the candidate's own acceptor) changes the member's committed
+	// number, the new committed number is the number the member has accepted — a member that has
+	// meanwhile accepted a higher number from another candidate must refuse the older commit, or two
+	// overlapping candidacies can both collect a majority of commits
+	ssync.OnAnyRelease = func(mu *ssync.Mutex) {
+		m := memberOfNode(ssched.CurrentNode())
+		if m == nil || !live(m) || m.node.id != ssched.CurrentNode() {
+			return
+		}
+		v := m.node.sl.arbiterManager.voter
+		p, c := v.proposalId, v.commitId
+		if armed && c != m.seenC && mu == v.glock {
+			_, all := stackClass()
+			if strings.Contains(all, "DoSelfCommit") || strings.Contains(all, "commandHandleCommitCommand") {
+				w.probe("acceptor_commits_observed")
+				if c != p {
+					w.violate("C12", "acceptor_committed_unaccepted_number", "member %s (node n%d) committed number %d on a commit request although the number it has accepted is %d: it takes part in the commit majority of a candidacy it has already abandoned for a newer one (previous committed number %d, named host %s)", m.host, m.node.id, c, p, m.seenC, v.proposalHost)
+				}
+			}
+		}
+		m.seenP, m.seenC = p, c
+	}
+	defer func() { ssync.OnAnyRelease = nil }()
 
 	var acked []*ReqRec
 	storm := false
